@@ -209,7 +209,7 @@ def check_orm(case, ctx):
                     gv = [x.id for x in got] if isinstance(got, list) else got
                     if attr == "addresses" and "defer_addr_email" in case["opts"] and state not in ("transient", "pending"):
                         # loader options bound to the instance travel with it: the lazy load on the copy must still defer Address.email
-                        classes_after.add("instance-bound-option-applied")
+                        ctx.info("orm:instance-bound-option-checked")
                         eager = [a.id for a in got if "email" in a.__dict__]
                         if eager:
                             raise Violation("C51/orm/reload/instance-bound-loader-option-lost",
